@@ -654,6 +654,22 @@ pub(crate) mod b {
         println!("BOUNDED-CASES {}", n);
     }
 
+    /// WITNESS of a known finding (C10): quotes pair up along the whole row, so two separated drawings that each
+    /// contain one unbalanced quote are not independent.  Fails while the behaviour is present.
+    #[test]
+    fn witness_unbalanced_quotes_pair_across_gap() {
+        let (a, b) = ("a\"b", "c\"d");
+        let cells = |cb: &CellBuffer, dx: i32| cb.iter().map(|(c, ch)| (Cell::new(c.x + dx, c.y), *ch)).collect::<Vec<_>>();
+        let (ca, cb_) = (CellBuffer::from(a), CellBuffer::from(b));
+        let both = CellBuffer::from(format!("{}   {}", a, b).as_str());
+        let mut want = cells(&ca, 0);
+        want.extend(cells(&cb_, 6));
+        if cells(&both, 0) != want || both.escaped_text.len() != ca.escaped_text.len() + cb_.escaped_text.len() {
+            println!("BOUNDED-WITNESS {:?} and {:?} three columns apart: cells {:?} quoted {:?}; alone: cells {:?} quoted none", a, b, cells(&both, 0), both.escaped_text, want);
+            panic!("separated drawings are independent");
+        }
+    }
+
     /// WITNESS of a known finding (C11): whether a tag next to the right border styles its box depends on the
     /// scale, because `Text::bounds` adds an unscaled width to a scaled anchor.  Fails while the defect is present.
     #[test]
